@@ -804,6 +804,53 @@ def _composite_padding(model, rep):
        f"like-shaped ones)", fn.lineno)
 
 
+def _bmat_blocks(model, rep):
+    """utils.bmat: the attribute .blocks of the block matrix lists the
+    column positions at which the solution vector is cut into the blocks'
+    unknowns (np.split(x, K.blocks)): the prefix sums of the block widths.
+    Symbolic run with five block columns of symbolic widths (vectors count
+    their length)."""
+    from ..interp import PyFunc
+    L5 = "C19-L5"
+    fn = model.func("skfem.utils", "bmat")
+    NCOL = 5
+    W = [Poly.sym(f"w{j}") for j in range(NCOL)]
+    H = [Poly.sym(f"h{i}") for i in range(3)]
+
+    def Blk(shape):
+        return Obj(None, {"shape": shape})
+    # first row: None in column 1 (the second row provides its width),
+    # a vector-shaped entry in column 2
+    rows = [[Blk((H[0], W[0])), None, Blk((W[2],)), Blk((H[0], W[3])),
+             Blk((H[0], W[4]))],
+            [None, Blk((H[1], W[1])), None, None, None],
+            [None, None, None, None, None]]
+    mat = Obj(None, {})
+
+    def hook(interp, name, args, kwargs, node):
+        if name.endswith("sparse.bmat") or name.endswith(".bmat"):
+            return mat
+        return NotImplemented
+    try:
+        it = Interp(model, call_hook=hook)
+        r = it.call(fn, [rows], {})
+    except (Unsupported, Raised) as e:
+        raise AnalysisError(f"utils.bmat: {e}")
+    got = mat.attrs.get("blocks")
+    want, acc = [], Poly()
+    for j in range(NCOL - 1):
+        acc = acc + W[j]
+        want.append(acc)
+    ok = isinstance(got, list) and len(got) == len(want) and all(
+        Poly.coerce(a) == b for a, b in zip(got, want))
+    _v(rep, L5, ok, "utils.bmat:blocks",
+       f"cut positions of {NCOL} block columns = prefix sums of their "
+       f"widths", "skfem/utils.py", "bmat",
+       f"bmat(...).blocks is {got}; expected the prefix sums {want}: from "
+       f"the third position on np.split(x, K.blocks) cuts the solution "
+       f"vector at the wrong places", fn.lineno)
+
+
 def _l6(model, rep):
     """asm(): which basis tuple goes with which block index, and which form
     class wraps a plain function - by symbolic run"""
@@ -887,6 +934,7 @@ def run(model: Model, rep, tier: str) -> None:
            lambda: _tolocal_facets(model, rep),
            lambda: _l3(model, rep), lambda: _l4(model, rep),
            lambda: _composite_padding(model, rep),
+           lambda: _bmat_blocks(model, rep),
            lambda: _l5(model, rep), lambda: _l6(model, rep))
     rep.require_min("C19-L1", 6)
     rep.require_min("C19-L3", 12)
@@ -906,6 +954,9 @@ _LOCS = """            self.doflocs = np.array([
 _AS = "skfem/assembly/__init__.py"
 _ADI = "skfem/autodiff/__init__.py"
 MUTANTS = [
+    ("bmat accumulates the running offset twice",
+     ("skfem/utils.py", "                diff = sizes[-1]",
+      "                diff += sizes[-1]"), "C19-L5"),
     ("trilinear data, index rows and local_shape laid out (u, v, w) again",
      [("skfem/assembly/form/trilinear_form.py",
        "        sz = (wbasis.Nbfun, vbasis.Nbfun, ubasis.Nbfun, nt)",
